@@ -4,7 +4,14 @@ from io import BytesIO
 from typing import Dict, List, Mapping, Optional, Sequence, Tuple, Union, cast
 
 from pdfminer import settings
-from pdfminer.casting import safe_cmyk, safe_float, safe_int, safe_matrix, safe_rgb
+from pdfminer.casting import (
+    safe_cmyk,
+    safe_float,
+    safe_int,
+    safe_matrix,
+    safe_rect_list,
+    safe_rgb,
+)
 from pdfminer.cmapdb import CMap, CMapBase, CMapDB
 from pdfminer.pdfcolor import PREDEFINED_COLORSPACE, PDFColorSpace
 from pdfminer.pdfdevice import PDFDevice, PDFTextSeq
@@ -1184,8 +1191,16 @@ class PDFPageInterpreter:
         subtype = xobj.get("Subtype")
         if subtype is LITERAL_FORM and "BBox" in xobj:
             interpreter = self.dup()
-            bbox = cast(Rect, list_value(xobj["BBox"]))
-            matrix = cast(Matrix, list_value(xobj.get("Matrix", MATRIX_IDENTITY)))
+            bbox = safe_rect_list([resolve1(v) for v in list_value(xobj["BBox"])])
+            matrix_values = [
+                resolve1(v) for v in list_value(xobj.get("Matrix", MATRIX_IDENTITY))
+            ]
+            matrix = safe_matrix(*matrix_values) if len(matrix_values) == 6 else None
+            if bbox is None or matrix is None:
+                log.warning(
+                    "Ignoring form XObject %r with invalid /BBox or /Matrix", xobjid
+                )
+                return
             # According to PDF reference 1.7 section 4.9.1, XObjects in
             # earlier PDFs (prior to v1.2) use the page's Resources entry
             # instead of having their own Resources entry.
